@@ -247,14 +247,36 @@ def _kinds(ctx, acm):
         if n in K.loop_body_nodes(loop)]
     ctx.require(terms, 'terminate decision in the resync loop', rule='C13.1')
 
+    # locals of the routine (and of helpers spliced into it) by what they
+    # are bound to: a term may name the link target through one of them
+    bound = {}
+    for gn in graph.nodes:
+        if gn.kind == 'stmt' and isinstance(gn.ast, ast.Assign) and \
+                len(gn.ast.targets) == 1 and \
+                isinstance(gn.ast.targets[0], ast.Name):
+            bound.setdefault(gn.ast.targets[0].id, []).append(
+                N.txt(gn.ast.value))
+    readers = _link_readers(acm.module)
+
+    def reads_link(term):
+        if any(r in term for r in readers):
+            return True
+        try:
+            names = N.mentions(ast.parse(term, mode='eval').body)
+        except SyntaxError:
+            return False
+        # (every binding reads the link; '' stands for a link that is gone)
+        return any(n in bound and any(
+            any(r in b for r in readers) for b in bound[n]) and all(
+                b in ("''", '""') or any(r in b for r in readers)
+                for b in bound[n]) for n in names)
+
     def same_container(edge):
         for atom in nz.facts_of_edge(edge):
             key = atom.key
             if key[0] == 'cmp' and key[1] == '==':
                 terms_ = [t for t, _c in key[2]]
-                if cvar in terms_ and any(
-                        r in t for t in terms_
-                        for r in _link_readers(acm.module)):
+                if cvar in terms_ and any(reads_link(t) for t in terms_):
                     return True
         return False
     for node in terms:
